@@ -20,11 +20,60 @@ CAL = "/user/calendars/calendar/"
 
 
 class BigSyncRun:
-    def __init__(self, cfg, tag="big"):
+    def __init__(self, cfg, tag="big", prop="C07"):
         self.cfg = cfg
         self.tag = tag
+        self.prop = prop
         self.violations = []
         self.stats = {}
+
+    def faulted_writes(self, w, r, before):
+        """C01 on a large collection: the index of a thousand entries is written in several chunks, so
+        an ENOSPC/EIO can land in the middle of it.  An acknowledged PUT is there afterwards; a failed
+        one leaves the collection readable with everything it had."""
+        import errno
+
+        FS.log = []
+        base = FS.mut_seq
+        rr = w.req("PUT", CAL + "probe.ics", [("Content-Type", "text/calendar")], gen.ics(r, "probe", comp="VEVENT", rich=0))
+        events = list(FS.log)
+        FS.log = None
+        if rr is None or rr.status not in (201, 204):
+            return
+        pos = [i + 1 for i, (kind, paths, nb) in enumerate(events) if kind in ("write", "replace", "rename") and paths and os.path.basename(str(paths[0])).startswith("index")]
+        if not pos:
+            return
+        picks = sorted(set([pos[0], pos[len(pos) // 2], pos[-1]] + ([pos[-2]] if len(pos) > 1 else [])))
+        have = dict(before)
+        have["probe.ics"] = None
+        for j, k in enumerate(picks):
+            name = "fw%d.ics" % j
+            FS.err_fired = []
+            FS.err_at = {FS.mut_seq + k: r.choice([errno.ENOSPC, errno.EIO])}
+            pr = w.req("PUT", CAL + name, [("Content-Type", "text/calendar")], gen.ics(r, "fw-%d" % j, comp="VEVENT", rich=0))
+            FS.err_at = {}
+            fired = bool(FS.err_fired)
+            FS.err_fired = []
+            if fired:
+                self.count("fault.io_error_in_index_write")
+            st = pr.status if pr is not None else None
+            try:
+                now = self.listing(w)
+            except Exception as e:  # noqa: BLE001
+                self.violations.append({"prop": "C01", "oracle": "C01.collection-unreadable-after-write", "sig": {"oracle": "C01.collection-unreadable-after-write", "size": "large", "io_fault": fired}, "step": None,
+                                        "detail": "PUT %s -> %s with an I/O error at mutation %d of the request (index write): listing now fails: %r" % (name, st, k, e)})
+                return
+            g = w.req("GET", CAL + name)
+            if st in (201, 204):
+                if name not in now or g is None or g.status != 200:
+                    self.violations.append({"prop": "C01", "oracle": "C01.state-differs-from-acknowledged", "sig": {"oracle": "C01.state-differs-from-acknowledged", "size": "large", "io_fault": fired, "what": "missing"}, "step": None,
+                                            "detail": "PUT %s acknowledged (%s) although an I/O error hit the index write (mutation %d): listed=%s GET=%s" % (name, st, k, name in now, g.status if g else None)})
+                have[name] = None
+            missing = [n for n in have if n not in now and n != name]
+            if missing:
+                self.violations.append({"prop": "C01", "oracle": "C01.other-member-lost", "sig": {"oracle": "C01.other-member-lost", "size": "large", "io_fault": fired}, "step": None,
+                                        "detail": "after PUT %s -> %s with an I/O error in the index write: %d members are gone (%s...)" % (name, st, len(missing), missing[:3])})
+                return
 
     def count(self, k, n=1):
         self.stats[k] = self.stats.get(k, 0) + n
@@ -114,6 +163,9 @@ class BigSyncRun:
             t1, l1 = self.token(w), self.listing(w)
             if len(l1) != n + 1:
                 self.v("PROPFIND lists %d members after a bulk commit of %d" % (len(l1), n), what="listing")
+            if self.prop == "C01":
+                self.faulted_writes(w, r, l1)
+                return self.finish(w, arena)
             self.judge("sync from the empty token", self.sync(w, ""), {}, l1, t1)
             self.judge("sync from the token before the bulk commit", self.sync(w, t0), l0, l1, t1)
             # a few ordinary requests on top
@@ -126,10 +178,14 @@ class BigSyncRun:
             self.judge("sync from the first token", self.sync(w, t0), l0, l2, t2)
             self.judge("second sync from the empty token", self.sync(w, ""), {}, l2, t2)
         finally:
-            nreq = w.nreq
+            self._nreq = w.nreq
             w.shutdown()
             FS.active = False
             arena.destroy()
+        return self.finish(w, None)
+
+    def finish(self, w, arena):
+        nreq = getattr(self, "_nreq", w.nreq)
         seen, uniq = set(), []
         for x in self.violations:
             k = repr(sorted(x["sig"].items()))
